@@ -807,6 +807,14 @@ Section Validator.
     seq_outcome (Done rule_fragment_declarations) rule_fragment_spreads.
 
   (** ** validateValues *)
+  (** the refinement concerns Int literals (range) or String literals (predicate); other kinds are
+      the business of the accepted-kinds list *)
+  Definition refine_ok (p : lit_pred) (v : value) : bool :=
+    match p, v with
+    | PIntRange lo hi, VInt _ l _ => match int_lit l with Some z => Z.leb lo z && Z.leb z hi | None => false end
+    | PStringIn ok, VString _ s _ => ok s
+    | _, _ => true
+    end.
   Definition scalar_accepts (k : scalar) (v : value) : bool :=
     match k with
     | SInt => match v with VInt _ l _ => int32_lit_ok l | _ => false end
@@ -816,6 +824,8 @@ Section Validator.
     | SID => match v with VInt _ l _ => int64_lit_ok l | VString _ _ _ => true | _ => false end
     | SCustom None => true
     | SCustom (Some ks) => existsb (vkind_eqb (v_kind v)) ks
+    | SRefined acc p =>
+        match acc with None => true | Some ks => existsb (vkind_eqb (v_kind v)) ks end && refine_ok p v
     end.
 
   Inductive vres := VR (errs : list verror) | VPanic.
